@@ -315,6 +315,23 @@ type impl struct {
 	errs            int
 }
 
+// lateMax: histories up to this length also run with the V collection registered late.
+const lateMax = 2
+
+// newImplLate is newImpl without registering the V collection (the caller does, later).
+func newImplLate(strict bool) *impl {
+	im := &impl{}
+	opts := []state.MaterializerOption{state.WithOnError(func(error) { im.errs++ })}
+	if strict {
+		opts = append(opts, state.WithStrictSchema())
+	}
+	im.m = state.NewMaterializer(opts...)
+	im.u = state.NewTypedCollection[U](state.NewMemoryStore[U]())
+	im.v = state.NewTypedCollection[V](state.NewMemoryStore[V]())
+	state.RegisterCollection(im.m, im.u)
+	return im
+}
+
 func newImpl(strict bool) *impl {
 	im := &impl{}
 	opts := []state.MaterializerOption{
@@ -504,6 +521,47 @@ func compareN(c *h.Check, strict bool, hist []Op, own int) {
 		last = hist[n-1]
 	}
 	rc.Hist = hist
+
+	// 1b. a collection registered late: the V collection is registered only after the first
+	// p messages were applied (for every p), on short histories. Before that, V messages are
+	// messages of an unregistered type (ignored, or rejected in strict mode); from then on
+	// they are applied - whatever the materializer remembered about the type before.
+	if own == len(hist) && n <= lateMax {
+		for p := 0; p <= n; p++ {
+			lim := newImplLate(strict)
+			lmo := NewModel()
+			delete(lmo.Coll, "V")
+			for i, o := range hist {
+				if i == p {
+					state.RegisterCollection(lim.m, lim.v)
+					lmo.Coll["V"] = map[string]int{}
+				}
+				pos := i + 1
+				ev := &eventbus.StoredEvent{Offset: offsetOf(pos), Data: msgs[i].data()}
+				if msgs[i].change != nil {
+					ev.Type = msgs[i].change.EventTypeName()
+				} else {
+					ev.Type = msgs[i].ctrl.EventTypeName()
+				}
+				err := lim.m.Apply(ev)
+				fails, _ := lmo.Step(o, pos, strict)
+				at := fmt.Sprintf("collection V registered after %d of %d messages, Apply(%s)", p, n, o.short())
+				sigAt := "a collection registered after messages had been applied"
+				if fails != (err != nil) {
+					report(sigAt+": error result", fmt.Sprintf("%s returned %v, model fails=%v", at, err, fails))
+				}
+				for _, d := range lim.diff(lmo) {
+					report(sigAt+": "+d[0], at+": "+d[1])
+				}
+				if got, want := lim.m.LastOffset(), offsetOf(lmo.LastPos); got != want {
+					report(sigAt+": LastOffset", fmt.Sprintf("%s: LastOffset() = %q, want %q", at, got, want))
+				}
+				if bad > 0 {
+					return
+				}
+			}
+		}
+	}
 
 	// 2. one Replay session over a real MemoryStore-backed bus. bus.Replay stops at the
 	// first event whose Apply fails, so the reference is the fold of the log up to there.
